@@ -194,7 +194,7 @@ def random_map(rng, H, W, style):
 STYLES = ("tiny", "int", "frac", "bumps", "nonneg")
 
 
-def random_cases(rng, n, max_hw=24, ps=(3, 5, 7)):
+def random_cases(rng, n, max_hw=24, ps=(3, 4, 5, 6, 7)):
     cases = []
     for k in range(n):
         style = STYLES[k % len(STYLES)]
